@@ -30,6 +30,11 @@ def run(ctx):
     render.blend_table(ctx)
     render.operands_and_offset(ctx)
     render.no_extra_skips(ctx, rule='K8')
+    # K9: the index / coordinate arithmetic of the compositing path cannot wrap (a wrapped index draws another pixel or tile)
+    import C08 as _c08
+    _c08.no_wrap(ctx, rule='K9', functions=('asefile::file::write_raw_cel_to_image', 'asefile::file::write_tilemap_cel_to_image', 'asefile::file::tile_slice',
+                                            'asefile::tilemap::TilemapData::tile', 'asefile::tileset::TileSize::pixels_per_tile',
+                                            'asefile::file::AsepriteFile::write_cel', 'asefile::file::AsepriteFile::frame_image'))
     # code -> mode table (shared with C15)
     fn = 'asefile::layer::parse_blend_mode'
     b = ctx.anchor(fn)
